@@ -58,11 +58,15 @@ def summarize(sc):
 
 
 class Monitor:
-    def __init__(self, ctx):
+    def __init__(self, ctx, sparse=False):
         self.ctx = ctx
         self.trace = []
         self.value_changes = 0
         self.menu_moves = 0
+        # Observation perturbs the state: a monitor that evaluates every option before and after every action keeps all
+        # caches and side flags fresh, which the real program (it only renders the displayed rows) does not.  In "sparse"
+        # runs the monitor evaluates nothing but the option under the cursor.
+        self.sparse = sparse
 
     def on_start(self, sess, first):
         self.check_rows(sess, "session start")
@@ -79,6 +83,20 @@ class Monitor:
         st = sess.state
         k = st.kconf
         pre = {"menu": st.cur_menu, "depth": len(st.menu_path()) if hasattr(st, "menu_path") else 0}
+        if self.sparse:
+            node = st.shown[st.sel_node_i] if (st.shown and 0 <= st.sel_node_i < len(st.shown)) else None
+            s = node.item if node is not None and isinstance(node.item, core.Symbol) else None
+            pre["bools"], pre["locked"] = {}, {}
+            with simproc.quiet():
+                if s is not None and s.orig_type == core.BOOL:
+                    pre["bools"][s.name] = (s.bool_value, tuple(s.assignable), s._user_value)
+                if s is not None:
+                    val = s.str_value
+                    if s._has_active_indirect_set or (s.orig_type == core.BOOL and not s.choice and tuple(s.assignable) == (2,)):
+                        pre["locked"][s.name] = (val, s._user_value)
+            pre["values"] = {x.name: x._user_value for x in k.unique_defined_syms}  # user values: attribute reads only
+            sess.last_input = None
+            return pre
         with simproc.quiet():
             pre["bools"] = {s.name: (s.bool_value, tuple(s.assignable), s._user_value) for s in k.unique_defined_syms if s.orig_type == core.BOOL}
             pre["locked"] = {s.name: (s.str_value, s._user_value) for s in k.unique_defined_syms
@@ -142,7 +160,8 @@ class Monitor:
                         ctx.violate(f"C17/accepted-input-not-applied/{core.TYPE_TO_STR[sym.orig_type]}/{why}",
                                     f"{where}: the validator accepted {text!r} for {sym.name} but its value is {cur!r}")
                     ctx.counters["probe:input-accepted"] += 1
-            now = {s.name: s.str_value for s in k.unique_defined_syms}
+            now = ({s.name: s._user_value for s in k.unique_defined_syms} if self.sparse else
+                   {s.name: s.str_value for s in k.unique_defined_syms})
         if now != pre["values"]:
             self.value_changes += 1
         self.trace.append((key, len(st.shown), st.sel_node_i))
@@ -157,7 +176,8 @@ class Monitor:
 
 def execute(sc, ctx):
     m = uimachine.Machine(sc, ctx)
-    mon = Monitor(ctx)
+    mon = Monitor(ctx, sparse=bool(sc.get("sparse", sc.get("hash_salt", 0) & 4)))
+    ctx.counters["probe:sparse-monitor" if mon.sparse else "probe:full-monitor"] += 1
     done = uimachine.run(m, sc["actions"], mon, ctx)
     ctx.ev("c17", done, mon.trace)
     ctx.nontrivial = mon.value_changes > 0 and mon.menu_moves > 0
